@@ -751,9 +751,10 @@ printf("debug> '%s' is a macro.  param_count=%d\n", token, param_count);
       token_type = TOKEN_NUMBER;
     }
       else
-    if (token[0] == '0' && token[1] == 'b')
+    if (token[0] == '0' && token[1] == 'b' &&
+        !(tolower(token[ptr - 1]) == 'h' && !asm_context->ignore_number_postfix))
     {
-      // If token starts with 0b it's probably binary.
+      // If token starts with 0b it's probably binary (0b1h is hex).
       uint64_t num;
       if (tokens_binary_string_to_int(token + 2, &num, true) != 0) { return token_type; }
       snprintf(token, len, "%" PRId64, num);
